@@ -630,6 +630,8 @@ class Exec(Verifier):
             ce = item.context_expr
             if isinstance(ce, ast.Call):
                 fname = ce.func.attr if isinstance(ce.func, ast.Attribute) else (ce.func.id if isinstance(ce.func, ast.Name) else None)
+            if fname is None and isinstance(v, V) and v.ty.kind == "ref":
+                fname = v.ty.args[0]          # `with obj:` -- the exit effect is the contract ext::with_exit:<class of obj>
             if item.optional_vars is not None:
                 self.bind_target(item.optional_vars, v)
             exits.append((fname, v))
